@@ -1,9 +1,12 @@
 """C12 - all tiling helpers describe one and the same tiling.
 
 Implementation functions driven (real code from /repo/src):
-  spatial.tile_pixel_matrix, spatial.compute_tile_positions_per_frame,
-  spatial.iter_tiled_full_frame_data, spatial.get_tile_array,
-  utils.compute_plane_position_tiled_full, utils.are_plane_positions_tiled_full
+  spatial.tile_pixel_matrix, spatial.compute_tile_positions_per_frame (incl. its argument checks),
+  spatial.iter_tiled_full_frame_data (incl. SOP class / organisation checks and optional attributes),
+  spatial.get_tile_array (2-D and with trailing dimensions), spatial.PixelToReferenceTransformer
+  (.affine and __call__), spatial.map_pixel_into_coordinate_system,
+  utils.compute_plane_position_tiled_full (incl. the TypeError / ValueError paths),
+  utils.compute_plane_position_slide_per_frame, utils.are_plane_positions_tiled_full
 Model: coq/theories/C12_Model.v; theorems: C12_Props.v.
 """
 import itertools
@@ -23,15 +26,25 @@ ORACLE_PREMISES = [
     'float64 arithmetic of numpy stays within 1e-9 relative of the exact rational model (positions)',
     'int(np.ceil(a / b)) equals integer ceil-division for the sizes explored (< 2^53)',
 ]
-MODELLED = ('spatial.tile_pixel_matrix, get_tile_array, compute_tile_positions_per_frame, '
-            'iter_tiled_full_frame_data; utils.compute_plane_position_tiled_full, '
-            'are_plane_positions_tiled_full (PlanePositionSequence construction and the '
-            'PixelToReferenceTransformer are modelled as the affine formula, exercised not proved)')
-STRATA = ['grid', 'positions', 'iter', 'ppos', 'ppos_err', 'tiled_full', 'tile_array', 'tile_array_err']
+MODELLED = ('spatial.tile_pixel_matrix, get_tile_array (2-D and R x C x S), compute_tile_positions_per_frame '
+            '(with its length / zero-size / spacing guards), iter_tiled_full_frame_data (dataset level: SOP class, '
+            'DimensionOrganizationType, optional focal planes / optical paths / spacing between slices / z origin, '
+            'LABELMAP channel); PixelToReferenceTransformer as the 4x4 affine matrix (proved equal to the affine '
+            'formula); utils.compute_plane_position_tiled_full (ValueError / TypeError paths), '
+            'compute_plane_position_slide_per_frame, are_plane_positions_tiled_full '
+            '(PlanePositionSequence construction is read back through its attributes, not modelled)')
+STRATA = ['grid', 'positions', 'iter', 'ppos', 'ppos_err', 'tiled_full', 'tile_array', 'tile_array_err',
+          'positions_chk', 'affine', 'ppos2', 'iter_ds', 'slide_pf', 'tile_array_nd', 'cut_all']
 RULE = ('grid: exhaustive cube of (R,C,th,tw) up to a bound + random up to 24 (64 in thorough); '
         'positions/iter: random rational orientations (signed axis permutations, Pythagorean), dyadic '
         'spacings and origins; tiled_full: complete grids, permutations, holes, prefixes, duplicates; '
-        'tile_array: every tile of random matrices, padded or not, plus out-of-range offsets. '
+        'tile_array: every tile of random matrices, padded or not, plus out-of-range offsets; '
+        'positions_chk: each guard of compute_tile_positions_per_frame violated (lengths, size 0, spacing <= 0), singly '
+        'and in pairs; affine: transformer matrix and application to in- and out-of-matrix indices; ppos2: one-sided '
+        '3-D parameters, bad indices, bad spacings; iter_ds / slide_pf: datasets with absent optional attributes, '
+        'foreign SOP class, other organisation types, z origin, optical-path count differing from the sequence length; '
+        'tile_array_nd: arrays with 1..3 trailing samples; cut_all: every tile of the grid of one matrix, from both '
+        'enumerations, pasted back by the oracle. '
         'non-trivial = more than one tile (or a rejected/negative answer); distinct by case hash')
 EXHAUSTIVE = {'quick': False, 'thorough': False}
 
@@ -142,7 +155,124 @@ def gen_cases(rng, tier):
             co = 1 + tw * rng.randrange((C - 1) // tw + 1) if rng.random() < 0.8 else rng.randint(1, C)
         cases.append({'kind': 'tile_array_err' if bad else 'tile_array', 'M': M, 'R': R, 'C': C,
                       'ro': ro, 'co': co, 'th': th, 'tw': tw, 'pad': rng.random() < 0.7})
+    cases += _gen_ext(rng, nrand)
     return cases
+
+
+def _gen_ext(rng, nrand):
+    """cases of the extension: guards, dataset-level options, further entry points"""
+    cases = []
+    for _ in range(max(60, nrand // 5)):                      # positions_chk
+        R, C, th, tw = _sizes(rng, 8)
+        g = _geom(rng)
+        c = dict(g, kind='positions_chk', R=R, C=C, th=th, tw=tw, npos=3, nori=6, nsp=2)
+        faults = rng.choice([[], ['npos'], ['nori'], ['nsp'], ['th0'], ['tw0'], ['spr'], ['spc'],
+                             ['th0', 'spr'], ['tw0', 'th0'], ['nsp', 'tw0'], ['npos', 'nori'], ['nori', 'spc']])
+        for f in faults:
+            if f in ('npos', 'nori', 'nsp'):
+                c[f] = c[f] + rng.choice([-1, 1])
+            elif f == 'th0':
+                c['th'] = 0
+            elif f == 'tw0':
+                c['tw'] = 0
+            else:
+                c[f] = str(F(rng.choice([0, -1, -3]), rng.choice([1, 2])))
+        c['faults'] = faults
+        cases.append(c)
+    for _ in range(max(50, nrand // 6)):                      # affine
+        g = _geom(rng)
+        pts = [[rng.randint(-5, 40), rng.randint(-5, 40)] for _ in range(rng.randint(1, 5))]
+        pts[0] = rng.choice([[0, 0], [1, 0], [0, 1], pts[0]])
+        cases.append(dict(g, kind='affine', pts=pts))
+    for _ in range(max(80, nrand // 4)):                      # ppos2
+        g = _geom(rng)
+        g['pos'] = g['pos'][:2]
+        ri, ci = rng.randint(1, 20), rng.randint(1, 20)
+        mode = rng.choice(['both', 'none', 'only_index', 'only_sbs', 'bad_ri', 'bad_ci', 'bad_sp', 'bad_ri_only_index',
+                           'only_sbs_bad_sp', 'only_index', 'only_sbs'])
+        both = rng.random() < 0.5
+        has_idx, has_sbs = {'both': (True, True), 'none': (False, False), 'only_index': (True, False),
+                            'only_sbs': (False, True), 'bad_ri': (both, both), 'bad_ci': (both, both),
+                            'bad_sp': (both, both), 'bad_ri_only_index': (True, False),
+                            'only_sbs_bad_sp': (False, True)}[mode]
+        sidx = rng.randint(1, 5) if has_idx else None
+        sbs = str(F(rng.randint(1, 20), rng.choice([1, 2, 4]))) if has_sbs else None
+        if mode in ('bad_ri', 'bad_ri_only_index'):
+            ri = rng.randint(-2, 0)
+        if mode == 'bad_ci':
+            ci = rng.randint(-2, 0)
+        if mode in ('bad_sp', 'only_sbs_bad_sp'):
+            g[rng.choice(['spr', 'spc'])] = str(F(rng.choice([0, -1]), 1))
+        cases.append(dict(g, kind='ppos2', mode=mode, ri=ri, ci=ci, th=rng.randint(1, 40), tw=rng.randint(1, 40),
+                          sidx=sidx, sbs=sbs))
+    for i in range(max(120, nrand // 3)):                     # iter_ds / slide_pf
+        R, C, th, tw = _sizes(rng, 7)
+        g = _geom(rng)
+        g['pos'] = g['pos'][:2]
+        sop = rng.choice(['wsi', 'wsi', 'seg', 'seg', 'lmseg', 'other'])
+        c = dict(g, kind='iter_ds' if i % 3 else 'slide_pf', R=R, C=C, th=th, tw=tw, sop=sop,
+                 dim_org=rng.choice(['TILED_FULL'] * 6 + ['TILED_SPARSE', None]),
+                 nfp=rng.choice([None, 1, 2, 3]),
+                 segtype=rng.choice(['BINARY', 'FRACTIONAL', 'LABELMAP']) if sop in ('seg', 'lmseg') else None,
+                 nseg=rng.randint(0, 3), nop=rng.choice([None, None, 1, 2, 3]), len_ops=rng.randint(1, 3),
+                 sbs=rng.choice([None, str(F(rng.randint(1, 20), rng.choice([1, 2, 4])))]),
+                 zorigin=rng.choice([None, str(F(rng.randint(-40, 40), rng.choice([1, 2, 4])))]))
+        cases.append(c)
+    for _ in range(max(60, nrand // 5)):                      # tile_array_nd
+        R, C, th, tw = _sizes(rng, 6)
+        S = rng.randint(1, 3)
+        M = [[[rng.randint(0, 9) for _ in range(S)] for _ in range(C)] for _ in range(R)]
+        bad = rng.random() < 0.12
+        if bad:
+            ro, co = rng.choice([(0, 1), (R + 1, 1), (1, 0), (1, C + 1)])
+        else:
+            ro = 1 + th * rng.randrange((R - 1) // th + 1) if rng.random() < 0.8 else rng.randint(1, R)
+            co = 1 + tw * rng.randrange((C - 1) // tw + 1) if rng.random() < 0.8 else rng.randint(1, C)
+        cases.append({'kind': 'tile_array_nd', 'M': M, 'R': R, 'C': C, 'S': S, 'ro': ro, 'co': co, 'th': th, 'tw': tw,
+                      'pad': rng.random() < 0.7, 'bad': bad})
+    for _ in range(max(60, nrand // 5)):                      # cut_all
+        R, C, th, tw = _sizes(rng, 7)
+        M = [[rng.randint(1, 9) for _ in range(C)] for _ in range(R)]
+        cases.append({'kind': 'cut_all', 'M': M, 'R': R, 'C': C, 'th': th, 'tw': tw, 'pad': rng.random() < 0.75})
+    return cases
+
+
+SOP_UIDS = {'wsi': '1.2.840.10008.5.1.4.1.1.77.1.6', 'seg': '1.2.840.10008.5.1.4.1.1.66.4',
+            'lmseg': '1.2.840.10008.5.1.4.1.1.66.7', 'other': '1.2.840.10008.5.1.4.1.1.2'}
+
+
+def _dataset2(c):
+    from pydicom import Dataset
+    ds = Dataset()
+    ds.SOPClassUID = SOP_UIDS[c['sop']]
+    if c['dim_org'] is not None:
+        ds.DimensionOrganizationType = c['dim_org']
+    o = Dataset()
+    o.XOffsetInSlideCoordinateSystem = float(F(c['pos'][0]))
+    o.YOffsetInSlideCoordinateSystem = float(F(c['pos'][1]))
+    if c['zorigin'] is not None:
+        o.ZOffsetInSlideCoordinateSystem = float(F(c['zorigin']))
+    ds.TotalPixelMatrixOriginSequence = [o]
+    ds.ImageOrientationSlide = _fl(c['rc']) + _fl(c['cc'])
+    if c['nfp'] is not None:
+        ds.TotalPixelMatrixFocalPlanes = c['nfp']
+    if c['sop'] in ('seg', 'lmseg'):
+        ds.SegmentationType = c['segtype']
+        ds.SegmentSequence = [Dataset() for _ in range(c['nseg'])]
+    else:
+        if c['nop'] is not None:
+            ds.NumberOfOpticalPaths = c['nop']
+        ds.OpticalPathSequence = [Dataset() for _ in range(c['len_ops'])]
+    pm = Dataset()
+    pm.PixelSpacing = [float(F(c['spr'])), float(F(c['spc']))]
+    if c['sbs'] is not None:
+        pm.SpacingBetweenSlices = float(F(c['sbs']))
+    sh = Dataset()
+    sh.PixelMeasuresSequence = [pm]
+    ds.SharedFunctionalGroupsSequence = [sh]
+    ds.Rows, ds.Columns = c['th'], c['tw']
+    ds.TotalPixelMatrixRows, ds.TotalPixelMatrixColumns = c['R'], c['C']
+    return ds
 
 
 def _fl(xs):
@@ -227,6 +357,65 @@ def run_impl(c):
     if k in ('tile_array', 'tile_array_err'):
         M = np.array(c['M'], dtype=np.int64).reshape(c['R'], c['C'])
         return catch(lambda: spatial.get_tile_array(M, c['ro'], c['co'], c['th'], c['tw'], pad=c['pad']).tolist())
+    if k == 'positions_chk':
+        pos = (_fl(c['pos']) + [0.0])[:c['npos']]
+        ori = (_fl(c['rc']) + _fl(c['cc']) + [0.0])[:c['nori']]
+        sp = ([float(F(c['spr'])), float(F(c['spc']))] + [1.0])[:c['nsp']]
+        return catch(lambda: [[o, p] for o, p in spatial.compute_tile_positions_per_frame(
+            c['th'], c['tw'], c['R'], c['C'], pos, ori, sp)])
+    if k == 'affine':
+        tr = spatial.PixelToReferenceTransformer(
+            image_position=_fl(c['pos']), image_orientation=_fl(c['rc']) + _fl(c['cc']),
+            pixel_spacing=(float(F(c['spr'])), float(F(c['spc']))))
+        pts = tr(np.array(c['pts'], dtype=np.int64)).tolist()
+        one = list(spatial.map_pixel_into_coordinate_system(
+            index=tuple(c['pts'][0]), image_position=_fl(c['pos']),
+            image_orientation=_fl(c['rc']) + _fl(c['cc']),
+            pixel_spacing=(float(F(c['spr'])), float(F(c['spc'])))))
+        return [tr.affine.tolist(), pts, [one]]
+    if k == 'ppos2':
+        def f2():
+            kw = {}
+            if c['sidx'] is not None:
+                kw['slice_index'] = c['sidx']
+            if c['sbs'] is not None:
+                kw['spacing_between_slices'] = float(F(c['sbs']))
+            pp = utils.compute_plane_position_tiled_full(
+                row_index=c['ri'], column_index=c['ci'],
+                x_offset=float(F(c['pos'][0])), y_offset=float(F(c['pos'][1])),
+                rows=c['th'], columns=c['tw'],
+                image_orientation=_fl(c['rc']) + _fl(c['cc']),
+                pixel_spacing=(float(F(c['spr'])), float(F(c['spc']))), **kw)
+            it = pp[0]
+            return [[int(it.ColumnPositionInTotalImagePixelMatrix), int(it.RowPositionInTotalImagePixelMatrix)],
+                    [float(it.XOffsetInSlideCoordinateSystem), float(it.YOffsetInSlideCoordinateSystem),
+                     float(it.ZOffsetInSlideCoordinateSystem)]]
+        return catch(f2)
+    if k == 'iter_ds':
+        ds = _dataset2(c)
+        return catch(lambda: [[ch, fp, col, row, [x, y, z]] for ch, fp, col, row, x, y, z in
+                              spatial.iter_tiled_full_frame_data(ds)])
+    if k == 'slide_pf':
+        ds = _dataset2(c)
+        return catch(lambda: [[[int(pp[0].ColumnPositionInTotalImagePixelMatrix),
+                                int(pp[0].RowPositionInTotalImagePixelMatrix)],
+                               [float(pp[0].XOffsetInSlideCoordinateSystem),
+                                float(pp[0].YOffsetInSlideCoordinateSystem),
+                                float(pp[0].ZOffsetInSlideCoordinateSystem)]]
+                              for pp in utils.compute_plane_position_slide_per_frame(ds)])
+    if k == 'tile_array_nd':
+        M = np.array(c['M'], dtype=np.int64).reshape(c['R'], c['C'], c['S'])
+        return catch(lambda: spatial.get_tile_array(M, c['ro'], c['co'], c['th'], c['tw'], pad=c['pad']).tolist())
+    if k == 'cut_all':
+        M = np.array(c['M'], dtype=np.int64).reshape(c['R'], c['C'])
+        offs = [o for o, _ in spatial.compute_tile_positions_per_frame(
+            c['th'], c['tw'], c['R'], c['C'], (0.0, 0.0, 0.0), (1, 0, 0, 0, 1, 0), (1.0, 1.0))]
+        a = [[[co, ro], spatial.get_tile_array(M, ro, co, c['th'], c['tw'], pad=c['pad']).tolist()] for co, ro in offs]
+        b = [[[(ci - 1) * c['tw'] + 1, (ri - 1) * c['th'] + 1],
+              spatial.get_tile_array(M, (ri - 1) * c['th'] + 1, (ci - 1) * c['tw'] + 1, c['th'], c['tw'],
+                                     pad=c['pad']).tolist()]
+             for ci, ri in spatial.tile_pixel_matrix(c['R'], c['C'], c['th'], c['tw'])]
+        return [a, b]
     raise ValueError(k)
 
 
@@ -237,7 +426,7 @@ def _v3(xs):
 
 def coq_term(c):
     k = c['kind']
-    s = f"{zlit(c.get('R', 0))} {zlit(c.get('C', 0))} {zlit(c['th'])} {zlit(c['tw'])}"
+    s = f"{zlit(c.get('R', 0))} {zlit(c.get('C', 0))} {zlit(c.get('th', 0))} {zlit(c.get('tw', 0))}"
     if k == 'grid':
         return f'(VL [run_tpm {s}; VL (map vpairz (tile_offsets {s}))])'
     if k == 'positions':
@@ -260,6 +449,40 @@ def coq_term(c):
     if k in ('tile_array', 'tile_array_err'):
         return (f"(run_tile_array {zll(c['M'])} {zlit(c['R'])} {zlit(c['C'])} {zlit(c['ro'])} {zlit(c['co'])} "
                 f"{zlit(c['th'])} {zlit(c['tw'])} {'true' if c['pad'] else 'false'})")
+    if k == 'positions_chk':
+        return (f"(run_positions_chk {zlit(c['npos'])} {zlit(c['nori'])} {zlit(c['nsp'])} {s} {_v3(c['pos'])} "
+                f"{_v3(c['rc'])} {_v3(c['cc'])} {qlit(F(c['spr']))} {qlit(F(c['spc']))})")
+    if k == 'affine':
+        geo = f"{_v3(c['pos'])} {_v3(c['rc'])} {_v3(c['cc'])} {qlit(F(c['spr']))} {qlit(F(c['spc']))}"
+        pts = '[' + '; '.join(f'({zlit(a)}, {zlit(b)})' for a, b in c['pts']) + ']'
+        p0 = f"[({zlit(c['pts'][0][0])}, {zlit(c['pts'][0][1])})]"
+        return f'(VL [run_affine {geo}; run_affine_apply {geo} {pts}; run_affine_apply {geo} {p0}])'
+    if k == 'ppos2':
+        sidx = 'None' if c['sidx'] is None else f"(Some {zlit(c['sidx'])})"
+        sbs = 'None' if c['sbs'] is None else f"(Some {qlit(F(c['sbs']))})"
+        return (f"(run_ppos2 {zlit(c['ri'])} {zlit(c['ci'])} {qlit(F(c['pos'][0]))} {qlit(F(c['pos'][1]))} "
+                f"{zlit(c['th'])} {zlit(c['tw'])} {_v3(c['rc'])} {_v3(c['cc'])} "
+                f"{qlit(F(c['spr']))} {qlit(F(c['spc']))} {sidx} {sbs})")
+    if k in ('iter_ds', 'slide_pf'):
+        def oz(v):
+            return 'None' if v is None else f'(Some {zlit(v)})'
+
+        def oq(v):
+            return 'None' if v is None else f'(Some {qlit(F(v))})'
+        sop = {'wsi': 'SC_WSI', 'seg': 'SC_SEG', 'lmseg': 'SC_LABELMAP_SEG', 'other': 'SC_OTHER'}[c['sop']]
+        dim = 'None' if c['dim_org'] is None else ('(Some true)' if c['dim_org'] == 'TILED_FULL' else '(Some false)')
+        d = (f"(TFD {sop} {dim} {oz(c['nfp'])} {'true' if c['segtype'] == 'LABELMAP' else 'false'} {zlit(c['nseg'])} "
+             f"{oz(c['nop'])} {zlit(c['len_ops'])} {oq(c['sbs'])} {oq(c['zorigin'])} {s} "
+             f"{qlit(F(c['pos'][0]))} {qlit(F(c['pos'][1]))} {_v3(c['rc'])} {_v3(c['cc'])} "
+             f"{qlit(F(c['spr']))} {qlit(F(c['spc']))})")
+        return f"({'run_iter_ds' if k == 'iter_ds' else 'run_slide_per_frame'} {d})"
+    if k == 'tile_array_nd':
+        M = '[' + '; '.join(zll(row) for row in c['M']) + ']'
+        return (f"(run_tile_array_nd {zlit(c['S'])} {M} {zlit(c['R'])} {zlit(c['C'])} {zlit(c['ro'])} {zlit(c['co'])} "
+                f"{zlit(c['th'])} {zlit(c['tw'])} {'true' if c['pad'] else 'false'})")
+    if k == 'cut_all':
+        t = f"(run_cut_all {zll(c['M'])} {s} {'true' if c['pad'] else 'false'})"
+        return f'(VL [{t}; {t}])'
     raise ValueError(k)
 
 
@@ -374,6 +597,121 @@ def oracle(c, out):
         return None
     if k == 'tile_array_err':
         return None if isinstance(out, Err) else 'out-of-matrix offset accepted'
+    if k == 'positions_chk':
+        bad_len = c['npos'] != 3 or c['nori'] != 6 or c['nsp'] != 2
+        zero = c['th'] == 0 or c['tw'] == 0
+        bad_sp = F(c['spr']) <= 0 or F(c['spc']) <= 0
+        if bad_len or zero or bad_sp:
+            want = 'ValueError' if bad_len else ('ZeroDivisionError' if zero else 'ValueError')
+            if not isinstance(out, Err):
+                return f'invalid arguments ({c["faults"]}) accepted'
+            return None if str(out.kind) == want else f'{out} raised, expected {want} ({c["faults"]})'
+        if isinstance(out, Err):
+            return f'valid arguments refused: {out}'
+        return oracle(dict(c, kind='positions'), out)
+    if k == 'affine':
+        A, pts, one = out
+        pos, rc, cc = _fl(c['pos']), _fl(c['rc']), _fl(c['cc'])
+        spr, spc = float(F(c['spr'])), float(F(c['spc']))
+        n = [rc[1] * cc[2] - rc[2] * cc[1], rc[2] * cc[0] - rc[0] * cc[2], rc[0] * cc[1] - rc[1] * cc[0]]
+        want = [[rc[i] * spc, cc[i] * spr, n[i], pos[i]] for i in range(3)] + [[0.0, 0.0, 0.0, 1.0]]
+        if len(A) != 4 or any(len(r) != 4 for r in A) or \
+                not all(_close(a, b) for ra, rb in zip(A, want) for a, b in zip(ra, rb)):
+            return f'affine matrix {A} is not [row cosines*spacing | column cosines*spacing | normal | position] {want}'
+        if len(pts) != len(c['pts']):
+            return f'{len(pts)} transformed points for {len(c["pts"])} indices'
+        for (ci, ri), p in zip(c['pts'] + [c['pts'][0]], pts + one):
+            ref = _ref_pos(c, ci, ri)
+            if len(p) != 3 or not all(_close(a, b) for a, b in zip(p, ref)):
+                return f'pixel index {(ci, ri)} mapped to {p}, transform gives {ref}'
+        return None
+    if k == 'ppos2':
+        bad_idx = c['ri'] < 1 or c['ci'] < 1
+        one_sided = (c['sidx'] is None) != (c['sbs'] is None)
+        bad_sp = F(c['spr']) <= 0 or F(c['spc']) <= 0
+        want = 'ValueError' if bad_idx else 'TypeError' if one_sided else 'ValueError' if bad_sp else None
+        if want is not None:
+            if not isinstance(out, Err):
+                return f'invalid call ({c["mode"]}) accepted'
+            return None if str(out.kind) == want else f'{out} raised, expected {want} ({c["mode"]})'
+        return oracle(dict(c, kind='ppos', slice=None if c['sidx'] is None else [c['sidx'], c['sbs']]), out)
+    if k in ('iter_ds', 'slide_pf'):
+        if c['sop'] == 'other' or c['dim_org'] != 'TILED_FULL':
+            if not isinstance(out, Err):
+                return 'dataset that is not a TILED_FULL slide image / segmentation accepted'
+            return None if str(out.kind) == 'ValueError' else f'{out} raised, expected ValueError'
+        if isinstance(out, Err):
+            return f'valid dataset refused: {out}'
+        if c['sop'] in ('seg', 'lmseg'):
+            chans = [None] if c['segtype'] == 'LABELMAP' else list(range(1, c['nseg'] + 1))
+        else:
+            chans = list(range(1, (c['nop'] if c['nop'] is not None else c['len_ops']) + 1))
+        nfp = 1 if c['nfp'] is None else c['nfp']
+        sbs = 1.0 if c['sbs'] is None else float(F(c['sbs']))
+        z0 = 0.0 if c['zorigin'] is None else float(F(c['zorigin']))
+        n_grid = -(-c['R'] // c['th']) * -(-c['C'] // c['tw'])
+        if len(out) != len(chans) * nfp * n_grid:
+            return f'{len(out)} frames, expected {len(chans)}x{nfp}x{n_grid}'
+        i = 0
+        for ch in chans:
+            for fp in range(1, nfp + 1):
+                block = out[i:i + n_grid]
+                i += n_grid
+                if k == 'iter_ds':
+                    if any(b[0] != ch or b[1] != fp for b in block):
+                        return f'channel/focal plane order wrong in block {ch},{fp}'
+                    block = [[[b[2], b[3]], b[4]] for b in block]
+                m = _check_grid_list([b[0] for b in block], c['R'], c['C'], c['th'], c['tw'])
+                if m:
+                    return m
+                for (co, ro), p in block:
+                    ref = _ref_pos(c, co - 1, ro - 1, z=z0 + (fp - 1) * sbs)
+                    if not all(_close(x, y) for x, y in zip(p, ref)):
+                        return f'position {p} of tile {(co, ro)} in plane {fp} vs transform {ref}'
+        return None
+    if k == 'tile_array_nd':
+        if c['bad']:
+            return None if isinstance(out, Err) and str(out.kind) == 'ValueError' else 'out-of-matrix offset accepted'
+        if isinstance(out, Err):
+            return f'valid offset refused: {out}'
+        R, C, th, tw, ro, co, S = c['R'], c['C'], c['th'], c['tw'], c['ro'], c['co'], c['S']
+        nr = th if c['pad'] else min(th, R - ro + 1)
+        nc = tw if c['pad'] else min(tw, C - co + 1)
+        if len(out) != nr or any(len(r) != nc for r in out) or any(len(p) != S for r in out for p in r):
+            return f'tile shape is not {nr}x{nc}x{S}'
+        for a in range(nr):
+            for b in range(nc):
+                r, cc = ro - 1 + a, co - 1 + b
+                want = c['M'][r][cc] if r < R and cc < C else [0] * S
+                if out[a][b] != want:
+                    return f'tile pixel {(a, b)} = {out[a][b]}, matrix/pad value {want}'
+        return None
+    if k == 'cut_all':
+        R, C, th, tw = c['R'], c['C'], c['th'], c['tw']
+        for name, tiles in zip(('compute_tile_positions_per_frame', 'tile_pixel_matrix'), out):
+            m = _check_grid_list([o for o, _ in tiles], R, C, th, tw)
+            if m:
+                return f'{name}: {m}'
+            buf = [[0] * C for _ in range(R)]
+            hits = [[0] * C for _ in range(R)]
+            for (co, ro), T in tiles:
+                nr = th if c['pad'] else min(th, R - ro + 1)
+                nc = tw if c['pad'] else min(tw, C - co + 1)
+                if len(T) != nr or any(len(r) != nc for r in T):
+                    return f'{name}: tile at {(co, ro)} has shape {len(T)}x{len(T[0]) if T else 0}, expected {nr}x{nc}'
+                for a in range(nr):
+                    for b in range(nc):
+                        r, cc = ro - 1 + a, co - 1 + b
+                        if r < R and cc < C:
+                            buf[r][cc] = T[a][b]
+                            hits[r][cc] += 1
+                        elif T[a][b] != 0:
+                            return f'{name}: out-of-matrix part of tile {(co, ro)} is not zero'
+            if buf != c['M']:
+                return f'{name}: pasting the tiles back does not reproduce the matrix'
+            if any(h != 1 for row in hits for h in row):
+                return f'{name}: some pixel is not written exactly once'
+        return None
     return f'unknown kind {k}'
 
 
@@ -385,14 +723,16 @@ def nontrivial(c, out):
         return len(out) > 1
     if k == 'tiled_full':
         return len(c['ps']) > 1
-    if k == 'tile_array':
+    if k in ('tile_array', 'tile_array_nd', 'cut_all'):
         return c['R'] * c['C'] > 1
+    if k in ('iter_ds', 'slide_pf'):
+        return isinstance(out, Err) or len(out) > 1
     return True
 
 
 def shrink(c):
     for key in ('R', 'C', 'th', 'tw', 'nch', 'nfp', 'ri', 'ci'):
-        if key in c and isinstance(c[key], int) and c[key] > 1 and c['kind'] not in ('tile_array', 'tile_array_err', 'tiled_full'):
+        if key in c and isinstance(c[key], int) and c[key] > 1 and c['kind'] not in ('tile_array', 'tile_array_err', 'tiled_full', 'tile_array_nd', 'cut_all'):
             yield dict(c, **{key: c[key] - 1})
             yield dict(c, **{key: 1})
     if c['kind'] == 'tiled_full' and len(c['ps']) > 1:
